@@ -37,7 +37,11 @@ def load_table(pid):
     if os.path.exists(p):
         for m in json.load(open(p)):
             m = dict(m)
-            m["kind"] = "edit"
+            if "patch" in m:
+                m["kind"] = "patch"
+                m["patch"] = os.path.join(VERIF, m["patch"])
+            else:
+                m["kind"] = "edit"
             out.append(m)
     for meta in sorted(glob.glob(os.path.join(VERIF, "seeded", "*", "meta.json"))):
         try:
